@@ -80,7 +80,8 @@ CodePlanCorrect ==
           ELSE PrintT("CPFAIL " \o ToJson([ prog |-> P.name, plan_result_ok |-> ok1, reorder_ok |-> ok2,
                                             inputs |-> [ r \in InputRels(P) |-> RowsJ(inp[r]) ] ]))
 EmitCover == (Size(inp) = 0) => PrintT("COVER " \o ToJson([ prog |-> P.name, has |-> HasPlan(P),
-                                                            covers |-> IF HasPlan(P) THEN PlanCovers(P) ELSE FALSE ]))
+                                                            covers |-> IF HasPlan(P) THEN PlanCovers(P) ELSE FALSE,
+                                                            idx |-> IF HasPlan(P) THEN IndexColumnsAgree(P) ELSE FALSE ]))
 PlanJ(Q) == LET pl == PlanOf(Q) IN
    [ i \in DOMAIN pl |-> [ looping |-> pl[i].looping, dynamic |-> SetToSeq(pl[i].dynamic),
                           variants |-> FoldSet(LAMBDA r, acc : acc + r.variants, 0, pl[i].rules),
